@@ -1,2 +1,4 @@
 pub mod canary;
+pub mod grad;
+pub mod c03;
 pub mod c04;
